@@ -341,6 +341,34 @@ def run_relabel(ctx, rng):
     ctx.ev("relabelling_results_compared")
     ok, why = same(ca, canon(b.by_group))
     ctx.check(ok, "relabelling_groups_does_more_than_rename_index_entries:by_group", difference=why, wit=wit)
+    # the same bijection applied to the constraint moments: index entries are renamed, every value stays with its row / entry
+    import fairlearn.reductions as red
+
+    gb = [bij[v] for v in d["g"]]
+    h = d["h"]
+    for kind in ("DemographicParity", "EqualizedOdds", "BoundedGroupLoss"):
+        def mk():
+            return red.BoundedGroupLoss(red.SquareLoss(0, 1), upper_bound=0.1) if kind == "BoundedGroupLoss" else getattr(red, kind)(difference_bound=0.05)
+        ma, mb = mk(), mk()
+        ma.load_data(d["X"], d["y"], sensitive_features=d["g"])
+        mb.load_data(d["X"], d["y"], sensitive_features=gb)
+
+        def ren_entry(e):
+            if isinstance(e, tuple):
+                return tuple(list(e[:-1]) + [bij.get(e[-1], e[-1])])
+            return bij.get(e, e)
+        ga = {repr(ren_entry(e)): float(v) for e, v in ma.gamma(ML.FixedPredictor(h)).items()}
+        gbv = {repr(e): float(v) for e, v in mb.gamma(ML.FixedPredictor(h)).items()}
+        ctx.ev("relabelling_results_compared")
+        ok, why = same(ga, gbv)
+        ctx.check(ok, "relabelling_groups_does_more_than_rename_moment_index_entries:" + kind, difference=why, wit=wit)
+        lam_a = pd.Series(np.linspace(0.2, 1.7, len(ma.index)), index=sorted(ma.index, key=lambda e: repr(ren_entry(e))))
+        lam_b = pd.Series(lam_a.to_numpy(), index=[ren_entry(e) for e in lam_a.index])
+        wa = np.asarray(ma.signed_weights(lam_a.reindex(ma.index)), float)
+        wb = np.asarray(mb.signed_weights(lam_b.reindex(mb.index)), float)
+        ctx.ev("relabelling_results_compared")
+        ctx.check(wa.shape == wb.shape and bool(np.allclose(wa, wb, rtol=1e-12, atol=1e-14)), "relabelling_groups_changes_signed_weights:" + kind,
+                  before=wa.tolist(), after=wb.tolist(), wit=wit)
     for nm, fa, fb in (("overall", a.overall, b.overall), ("difference", a.difference(), b.difference()), ("ratio", a.ratio(method="to_overall"), b.ratio(method="to_overall")),
                        ("group_min", a.group_min(), b.group_min())):
         ctx.ev("relabelling_results_compared")
